@@ -76,9 +76,21 @@ def main():
         len(diff.splitlines()),
         sorted({l[6:] for l in diff.splitlines() if l.startswith('+++ b/')})))
     results = {}
+    # the checks run against /repo's *current* pymap plus the patch (the
+    # worktree may be some commits behind /repo)
+    import tempfile
+    scratch = tempfile.mkdtemp(prefix='pymap-mut-', dir='/dev/shm')
+    shutil.copytree('/repo/pymap', os.path.join(scratch, 'pymap'))
+    a = run(['patch', '-p1', '-s', '-d', scratch, '-i', patch], wt)
+    if a.returncode != 0:
+        print('patch does not apply to /repo HEAD:', a.stdout, a.stderr)
+        shutil.rmtree(scratch, ignore_errors=True)
+        return 2
+    import atexit
+    atexit.register(shutil.rmtree, scratch, True)
     for pid in props:
         c = run([PY, os.path.join(ROOT, 'check'), pid, '--tier', tier,
-                 '--no-evidence'], ROOT, {'PYMAP_SRC': wt})
+                 '--no-evidence'], ROOT, {'PYMAP_SRC': scratch})
         hit = c.returncode == 1 and 'VIOLATION property=' in c.stdout
         lines = [l for l in c.stdout.splitlines()
                  if l.startswith(('violation:', 'detail:', 'VIOLATION',
@@ -110,7 +122,7 @@ def main():
             'how_run': 'tools_mutant.py: demo on unchanged tree, git apply '
                        'patch.diff in a scratch worktree, demo again, repo '
                        'suite with PYTHONPATH=<worktree>, then ./check <id> '
-                       '--tier %s with PYMAP_SRC=<worktree>' % tier})
+                       '--tier %s with PYMAP_SRC=<copy of /repo/pymap + patch>' % tier})
         json.dump(meta, open(meta_path, 'w'), indent=1)
         print('kept as', d)
     return 0
